@@ -57,7 +57,7 @@ type l2World struct {
 	nick    int
 	busy    map[string]bool // one state-affecting tx per subject per block
 	offline map[int]bool    // producer indices whose node abstains
-	profile int // 1 = committee-focused losing branches (no producer node-key switches, cancellations, offline arbiters)
+	profile int             // 1 = committee-focused losing branches (no producer node-key switches, cancellations, offline arbiters)
 	trace   func(string, ...interface{})
 }
 
@@ -66,14 +66,16 @@ func l2NewWorld(nd *node.Node, eraName string, seed int64, tag string, cnt map[s
 		busy: map[string]bool{}, offline: map[int]bool{}}
 }
 
-func (w *l2World) inc(k string)    { w.cnt[k]++ }
-func (w *l2World) h() uint32       { return w.nd.Height() + 1 }
+func (w *l2World) inc(k string)     { w.cnt[k]++ }
+func (w *l2World) h() uint32        { return w.nd.Height() + 1 }
 func (w *l2World) st() *state.State { return w.nd.Chain.GetState() }
 func (w *l2World) v2Active() bool {
 	a := w.nd.Arbiters.GetDPoSV2ActiveHeight()
 	return a != math.MaxUint32 && w.h() > a
 }
-func (w *l2World) v2Started() bool { return w.h() >= w.era.DPoSV2Start && w.era.DPoSV2Start != math.MaxUint32 }
+func (w *l2World) v2Started() bool {
+	return w.h() >= w.era.DPoSV2Start && w.era.DPoSV2Start != math.MaxUint32
+}
 
 func (w *l2World) take(a *account.Account, min common.Fixed64) (node.UTXORef, bool) {
 	return w.w.Take(a, min+node.DefaultFee)
@@ -830,7 +832,9 @@ func (w *l2World) opImpeach() bool {
 	return w.submit("Vote-CRCImpeachment-v1", "", node.VoteImpeach(in, amt, m), in)
 }
 
-func (w *l2World) ownerOf(p *crstate.ProposalState) *account.Account { return node.KeyByPub(p.ProposalOwner) }
+func (w *l2World) ownerOf(p *crstate.ProposalState) *account.Account {
+	return node.KeyByPub(p.ProposalOwner)
+}
 
 func (w *l2World) opTracking() bool {
 	ps := w.proposalsIn(crstate.VoterAgreed)
